@@ -11,6 +11,7 @@ CONSTANTS
   TrOnly = TRUE
   AxisBy = "dims"
   Memo = FALSE
+  WriteVia = "data"
   ClampBy = "dim"
   RangeBy = "coords"
   LookupBy = "search"
